@@ -64,6 +64,23 @@ func init() {
 	}, map[string]int{"MO-range": 6, "MO-source": 1, "LX-total": 1, "FL-reader-fresh": 1},
 		"Every place where Go's randomised map order could reach an output is a range over a map: all of them (in stack, webstack, internal) are enumerated from the type-checked syntax trees and each is classified as any-match (result independent of order), collect-then-totally-sort (the collected slice is sorted by a total order before its first other use; for the buckets: by a comparator that ends in a unique key, LX-total), or the bucket lookup whose first match is unique because similarity is an equivalence (re-using the EQ/AG verdicts of this run); anything else is a violation. Also: no math/rand, clock (other than the exempt HTML timestamp), select, goroutine or pointer formatting in the library (MO-source); the line reader is a fresh local per call and no package-level variable is written after init (FL-reader-fresh, EF-globals), so nothing survives from an earlier call.",
 		"sort.Strings/Ints/Sort produce a unique result for a total order; text/template visits map keys in sorted order; os/file-system contents are part of the input")
+	p("C14", []RuleSel{
+		{"EF", []string{"EF-immut", "EF-globals", "EF-opts", "EF-tpl"}},
+		{"EQ", []string{"EF-fresh-merge"}},
+		{"AG", []string{"AG-fresh-key", "AG-once"}},
+		{"FL", []string{"FL-reader-fresh"}},
+	}, map[string]int{"EF-immut": 20, "EF-globals": 30, "EF-opts": 2, "EF-tpl": 1, "EF-fresh-merge": 2},
+		"'Never modifies the snapshot' is a statement about which stores exist. An inclusion-based points-to analysis written for this task seeds every pointer-like model parameter of the aggregation and rendering entry points (Aggregate, IsRace, both ToHTML, the template call-backs and String methods, the console renderers) with a synthetic object standing for all snapshot memory and reports every store, map update, delete, copy destination, in-place append or in-place sort whose target may be that object (EF-immut); merge functions build their results in fresh slices/objects (EF-fresh-merge, AG-fresh-key); no package-level variable of stack/webstack, nor memory reachable from one, is written after init or handed to a callee outside the read-only table (EF-globals), the reader is a per-call local (FL-reader-fresh), the caller's Opts are only read and the slice they share with the snapshot is never written through (EF-opts); every identifier of the HTML template resolves to a data key, a model field or a method that is among the analysed entries (EF-tpl). Without writes to shared memory there is no data race between concurrent scans, aggregations and renderings.",
+		"regexp.Regexp, html/template execution and log are safe for concurrent use; templates cannot assign to fields; stdlib callees in the read-only table do not write through their arguments; races inside the standard library are not decided")
+	p("C15", []RuleSel{
+		{"NM", []string{"NM-*"}},
+		{"FL", []string{"NM-gate"}},
+		{"EF", []string{"EF-name-only"}},
+		{"MO", []string{"MO-range"}},
+		{"LX", []string{"LX-swo"}},
+	}, map[string]int{"NM-visit": 3, "NM-number": 6, "NM-walk": 1, "NM-isptr": 2, "NM-gate": 1, "EF-name-only": 1},
+		"The labelling is decided structurally over all SSA paths of nameArguments, its visitor closure and Args.walk: only values classified as pointers enter the table, keyed by value, each occurrence appended in place (walk passes the address of the element itself and recurses into aggregates); inPrimary is OR-accumulated from 'index of the goroutine == 0'; phase 1 takes exactly the values with more than one occurrence that occur in the first goroutine, phase 2 every remaining value not seen in the first goroutine; in both phases all occurrences of one value receive '#'+number with the same number and the number advances by exactly one per named value (none for a skipped one); both key lists are collected from the map and totally sorted ascending (MO class B with uint64Slice.Less); the only call site of nameArguments is guarded by exactly opts.NameArguments (NM-gate); the only snapshot field nameArguments writes is Arg.Name (EF-name-only, points-to); IsPtr is a function of the value alone (NM-isptr). Consistency, distinctness, density and order follow from numbering distinct sorted map keys.",
+		"a map has at most one entry per key (distinct values get distinct numbers)")
 	p("C07", []RuleSel{
 		{"SM", []string{"SM-ref", "SM-progress", "SM-looking-clean", "SM-done-remainder"}},
 		{"FL", []string{"FL-remainder", "FL-suffix-once", "FL-line-once", "FL-reader-fresh"}},
